@@ -2,6 +2,11 @@
 """Print the markdown table of seeded changes (DESIGN.md 8.5) from seeded/*/meta.json."""
 import json, glob, os
 root = os.path.dirname(os.path.dirname(os.path.abspath(__file__)))
+import io, sys
+_out = io.StringIO()
+_print = print
+def print(*a):
+    _print(*a, file=_out)
 rows = []
 for p in sorted(glob.glob(os.path.join(root, "seeded/*/meta.json"))):
     m = json.load(open(p))
@@ -15,3 +20,15 @@ for m in rows:
     print(f"| {m['id']} | {m['clause_broken']} | {m['needs_to_manifest']} | {res} |")
 caught = sum(1 for m in rows if m["check_exit"] == 1)
 print(f"\n{caught} of {len(rows)} seeded changes are reported by the property's quick check.")
+
+txt = _out.getvalue()
+dp = os.path.join(root, "DESIGN.md")
+d = open(dp).read()
+mark, end = "<!-- SEEDTABLE -->", "<!-- /SEEDTABLE -->"
+if d.count(mark) == 1 and d.count(end) == 1:
+    a = d.index(mark) + len(mark)
+    b = d.index(end)
+    open(dp, "w").write(d[:a] + "\n" + txt + d[b:])
+    _print("DESIGN.md section 8.5 rewritten:", txt.strip().splitlines()[-1])
+else:
+    _print(txt)
